@@ -355,6 +355,7 @@ func c28(c *an.Check) {
 		c.Undecided("GATE", "floodsub.execPublish", nil, "unresolved anchor")
 		return
 	}
+	perKeySetsAreFresh(c, "floodsub per-channel subscriber sets are not shared between channels", []*ssa.Function{p.Func(fsPkg, "streamHandler", "handleSubscriptions")})
 	cWrite := an.R(fsPkg, "streamHandler", "writePacket")
 	c.Gate(an.GateSpec{Construct: "floodsub execPublish forwards to a peer (writePacket)", Fn: ep,
 		Sink: func(s *an.State, ins ssa.Instruction) bool { return an.IsCallTo(ins, cWrite) },
@@ -858,4 +859,49 @@ func channelSubReleaseUnconditional(c *an.Check) {
 		ok, why = false, "the router's subscription is released only under a condition (e.g. 'the directive value was still attached'): when the directive is disposed first the subscription, its handlers and the peers' view of it stay forever"
 	}
 	c.Require(ok, "MUSTCALL", "pubsub controller's subscription value always releases the router subscription", res, "", 1, "relFunc: RemoveValue(..); sub.Release() unconditionally", why)
+}
+
+// perKeySetsAreFresh: a set (map) stored as the value of a map-of-sets inside a loop is created inside that loop: one
+// set shared between several keys makes a later removal under one key (an unsubscribe from one channel) remove the member
+// under every other key as well.
+func perKeySetsAreFresh(c *an.Check, construct string, fns []*ssa.Function) {
+	p := c.P
+	n, bad := 0, ""
+	for _, fn := range fns {
+		for _, g := range an.WithClosures(fn) {
+			for _, b := range g.Blocks {
+				for _, ins := range b.Instrs {
+					mu, ok := ins.(*ssa.MapUpdate)
+					if !ok {
+						continue
+					}
+					if _, isMap := mu.Value.Type().Underlying().(*types.Map); !isMap {
+						continue
+					}
+					loop := an.InnermostLoop(g, b)
+					if loop == nil {
+						continue
+					}
+					n++
+					for _, src := range waitSources(p, mu.Value) {
+						mm, isMake := src.(*ssa.MakeMap)
+						if !isMake {
+							continue // an existing set looked up from the table, a parameter: not this rule's business
+						}
+						if !loop[mm.Block()] {
+							bad = fmt.Sprintf("%s stores at %s a set created outside the loop (at %s) under a per-iteration key: the keys inserted by one pass share one set", an.FuncName(g), p.Pos(mu.Pos()), p.Pos(mm.Pos()))
+						}
+					}
+				}
+			}
+		}
+		c.Touch(fn)
+	}
+	c.Sites(n)
+	c.Require(bad == "" && n >= 1, "LOOPALLOC", construct, fns[0], "", n, "every set stored under a loop's key is made inside that loop", func() string {
+		if bad != "" {
+			return bad
+		}
+		return "no map-of-sets update inside a loop found (anchor drift)"
+	}())
 }
